@@ -42,7 +42,7 @@ func init() { scenarios["C17"] = scenC17 }
 func tailPat(ci int, i int) byte { return byte('a' + (i*7+ci*3+i/26)%26) }
 
 func scenC17(e *Env) func() {
-	p := &c17Plan{ReduceMem: e.Chance(40), NoResponse: e.Chance(30), Keep: e.Chance(30), ReadBufSz: Pick(e, 4096, 4096, 512, 8192), ReadTimeoutMs: Pick(e, 0, 0, 300)}
+	p := &c17Plan{ReduceMem: e.Chance(40), NoResponse: e.Chance(30), Keep: e.Chance(30), ReadBufSz: Pick(e, 4096, 4096, 512, 8192), ReadTimeoutMs: Pick(e, 0, 0, 2000)}
 	n := e.Range(1, 4)
 	var subs []simnet.Faults
 	for ci := 0; ci < n; ci++ {
@@ -54,8 +54,8 @@ func scenC17(e *Env) func() {
 		for _, n := range c.Cuts {
 			pm := Pick(e, 0, 0, 0, 1, 50, 700)
 			sent += n
-			if p.ReadTimeoutMs > 0 && sent < c.Before*40+80 && pm >= 50 {
-				pm = 1 // a request that dawdles past ReadTimeout is legitimately cut off: only the tail may be slow
+			if p.ReadTimeoutMs > 0 && sent > c.Before*40+120 && e.Chance(30) {
+				pm = 3000 // the tail may dawdle past ReadTimeout (the requests themselves never do: pauses stay below it)
 			}
 			c.PauseMs = append(c.PauseMs, pm)
 		}
